@@ -142,6 +142,8 @@ def coq_outcome(o):
         return "RaisedFatal %s %s" % (zlit(o[1]), "None" if o[2] is None else "(Some %s)" % zlit(o[2]))
     if o[0] == "stuck":
         return "NeedEvent"
+    if o[0] == "other" and o[1] == "KeyError" and o[2].startswith("<SCPReturnCodes."):
+        return "RaisedKeyError %s" % zlit(int(o[2].split(":")[1].strip(" >")))
     return None
 
 
@@ -431,7 +433,8 @@ def run(chk, args):
     small = [c for c in cases if c["idx"] >= 0]
     chunks = [[c] for c in big] + [small[i:i + 125] for i in range(0, len(small), 125)]
     outs = [o for part in chk.impl_parallel("impl_c06.py", chunks) for o in part]
-    cases = big + small
+    outs = outs[len(big):] + outs[:len(big)]                    # small cases are examined (and reported) first
+    cases = small + big
     exprs, idx = [], []
     for c, res in zip(cases, outs):
         if res == ["skipped"]:
